@@ -258,6 +258,13 @@ def build_array(kind, toks):
 
 
 def build(desc):
+    o = _build(desc)
+    if desc.get("grouped"):
+        o.group_by(next(iter(dict.keys(o))))
+    return o
+
+
+def _build(desc):
     cls = desc["cls"]
     if cls == "Vector":
         return di.Vector(build_array(desc["kind"], desc["toks"]))
@@ -427,8 +434,11 @@ def shards(tier):
 
 def run_shard(shard, rec):
     ds = descs(shard["part"], shard["tier"])
-    for desc in ds[shard["lo"]:shard["hi"]]:
+    for i, desc in enumerate(ds[shard["lo"]:shard["hi"]]):
         check_case({"obj": desc, "cfgs": configs_cached(desc["cls"])}, rec)
+        # every 9th frame / GeoJSON also as an object on which group_by was called before (the mark stays on the object)
+        if i % 9 == 4 and desc["cls"] in ("DataFrame", "GeoJSON") and shape(desc)[0] > 0:
+            check_case({"obj": dict(desc, grouped=True), "cfgs": configs_cached(desc["cls"])}, rec)
 
 
 # ---------------------------------------------------------------------------
